@@ -45,7 +45,6 @@ func genC04Doc(r *lib.Rng) string {
 	return sb.String()
 }
 
-const c04K6 = "go-to-definition on a member of a variable typed by an alias of a table / array type that ANOTHER file declares ('---@alias PointMap table<string, Point>' in types.lua, '---@type PointMap' + 'pmap.somekey' in main.lua) is answered with the requesting file's URI and the other file's line and column (getTableTypeMemKey / getArrayTypeMemKey build the symbol with FileName: fileName): the range names a place that is not in that document"
 
 var c04Known = map[byte][2]string{
 	'E': {"C04-K1", "an identifier that follows, on the same line, a short string containing an escape sequence is reported at columns shifted left (the lexer advances by the UNESCAPED length of the string)"},
@@ -248,7 +247,7 @@ func c04E2E(res *lib.Result, tier string, root *lib.Rng) error {
 		// types declared in another file: the definition of a type name in an annotation is a place of that file
 		src += "---@type Point\nlocal pt = { px = 1, py = 2 }\n---@param s Shape\n---@param l PointList\nlocal function draw(s, l) print(s.origin.px, l) end\ndraw(nil, { pt })\n"
 		// a variable typed by an alias of a table / array type that another file declares: its members are the
-		// alias's value type, a place of that other file (finding C04-K6: answered with this file's URI)
+		// alias's value type, a place of that other file (it used to be answered with this file's URI: finding K6, repaired)
 		src += "---@type PointMap\nlocal pmap = {}\nprint(pmap.somekey)\n"
 		// a file that starts with a byte-order mark (which is not part of its text)
 		src += "print(gbom, gbom2)\n"
@@ -369,15 +368,9 @@ func c04E2E(res *lib.Result, tier string, root *lib.Rng) error {
 					if f := sess.Rel(l.URI); f != "main.lua" {
 						// a place of another file: inside that file, and on the identifier (a module name leads to the start of its file)
 						checkIn(f, fmt.Sprintf("definition of %s at %d:%d", p.name, p.line, p.col), l.Range)
-						if t, ok := textIn(f, l.Range); ok && !okText[t] && !(p.name == "mod" && l.Range.Start.Line == 0) && !strings.Contains(lines[p.line][:p.bcol], "require") {
+						if t, ok := textIn(f, l.Range); ok && !okText[t] && !(p.name == "mod" && l.Range.Start.Line == 0) && !strings.Contains(lines[p.line][:p.bcol], "require") &&
+							!(p.name == "somekey" && f == "types.lua" && t == "Point") { // a key of a map typed by an alias leads to the alias's value type, in the file that declares it
 							res.AddViolation("impl-vs-spec", fmt.Sprintf("definition of %s at %d:%d: the range %s of %s selects %q, not the identifier", p.name, p.line, p.col, locOfRange(l.Range), f, t), src, false)
-						}
-					}
-					if sess.Rel(l.URI) == "main.lua" && p.name == "somekey" {
-						// the answer should be the value type of the alias, in types.lua
-						if t, ok := textAt(l.Range); !ok || t != p.name {
-							res.HitKnown("C04-K6", c04K6, fmt.Sprintf("definition of %s at %d:%d answers main.lua %s in\n%s", p.name, p.line, p.col, locOfRange(l.Range), src))
-							continue
 						}
 					}
 					if sess.Rel(l.URI) == "main.lua" {
